@@ -7,7 +7,8 @@ Import ListNotations.
 Lemma chk_all_C18 strict quit nosep w e : chk_all strict quit nosep w e = true -> chk_C18 w e = true.
 Proof.
   unfold chk_all, mchk_all. intros H. rewrite chk18_abs.
-  apply andb_true_iff in H. destruct H as [H _]. apply andb_true_iff in H. destruct H as [_ H]. exact H.
+  apply andb_true_iff in H. destruct H as [H _]. apply andb_true_iff in H. destruct H as [H _].
+  apply andb_true_iff in H. destruct H as [_ H]. exact H.
 Qed.
 
 Theorem input_requests specs specl typed quit run_empty fuel acts :
@@ -16,6 +17,75 @@ Theorem input_requests specs specl typed quit run_empty fuel acts :
 Proof.
   intros HS WF. eapply sok_weaken; [apply chk_all_C18|].
   apply (all_accepted false (fun _ => 0) specs specl typed quit run_empty fuel acts HS WF).
+Qed.
+
+(* ---- every requester is answered at most once *)
+Lemma chk_all_once strict quit nosep w e : chk_all strict quit nosep w e = true -> chk_once w e = true.
+Proof.
+  unfold chk_all, mchk_all. intros H. rewrite chk_once_abs.
+  apply andb_true_iff in H. destruct H as [_ H]. exact H.
+Qed.
+
+Theorem answered_once specs specl typed quit run_empty fuel acts :
+  (forall n, specs n = nth n specl default_spec) -> wf_session specl quit acts = true ->
+  sok chk_once typed (rev (trace (snd (app_run_all specs specl typed quit run_empty fuel acts)))) = true.
+Proof.
+  intros HS WF. eapply sok_weaken; [apply chk_all_once|].
+  apply (all_accepted false (fun _ => 0) specs specl typed quit run_empty fuel acts HS WF).
+Qed.
+
+(* the handlers that got a ready signal are never forgotten ... *)
+Lemma recv_mono_user m tag a t n : mem n (m_recv m) = true -> mem n (m_recv (muser m tag a t)) = true.
+Proof.
+  intros H. unfold muser.
+  destruct (tag =? T_OP)%nat; [exact H|].
+  destruct (tag =? T_STACK)%nat.
+  { destruct (nth0 a 0 =? K_APPEND)%nat; [|destruct (nth0 a 0 =? K_ADD_FIRST)%nat]; exact H. }
+  destruct (tag =? T_MODAL_RETURN)%nat; [exact H|].
+  destruct (tag =? T_REQ)%nat; [exact H|].
+  destruct (tag =? T_PROMPT)%nat; [destruct (nth0 a 1 =? 0)%nat; exact H|].
+  destruct (tag =? T_READY)%nat.
+  { cbn. match goal with |- context [if ?c then _ else _] => destruct c end;
+      [destruct (alookup (nth0 a 0) (m_req m)) as [[scr ar]|]|]; cbn; unfold mem in H; rewrite H; apply orb_true_r. }
+  destruct (tag =? T_INPUT)%nat; [exact H|].
+  destruct (tag =? T_ACTION)%nat; exact H.
+Qed.
+Lemma recv_mono_step w e n : mem n (sw_received w) = true -> mem n (sw_received (sworld_step w e)) = true.
+Proof.
+  change (sw_received w) with (m_recv (absw w)). change (sw_received (sworld_step w e)) with (m_recv (absw (sworld_step w e))).
+  rewrite abs_step. generalize (absw w). intros m H. destruct e; try exact H; try (apply recv_mono_user, H); cbn [mstep].
+  - destruct (m_follow m) as [[| [|?] | | | | |]|]; try exact H; destruct (cls =? CLS_RENDER)%nat; exact H.
+  - destruct (m_follow m) as [[| [|[|?]] | | | | |]|]; exact H.
+  - destruct (m_follow m) as [[| [|[|?]] | | | | |]|]; exact H.
+  - destruct (hid =? H_RECEIVED)%nat; [|exact H]. destruct (m_istack m); exact H.
+Qed.
+Lemma recv_mono_fold t : forall w n, mem n (sw_received w) = true -> mem n (sw_received (fold_left sworld_step t w)) = true.
+Proof. induction t as [|e r IH]; intros w n H; cbn; [exact H|]. apply IH, recv_mono_step, H. Qed.
+
+Lemma srun_mon_head chk t1 e t2 : forall w i, srun_mon chk w (t1 ++ e :: t2) i = None ->
+  chk (fold_left sworld_step t1 w) e = true.
+Proof.
+  induction t1 as [|x r IH]; intros w i H; cbn in H |- *.
+  - destruct (chk w e); [reflexivity|discriminate H].
+  - destruct (chk w x); [apply (IH _ _ H)|discriminate H].
+Qed.
+
+(* ... so an accepted trace contains no second ready signal for the same handler *)
+Theorem no_second_ready typed t1 n a1 x1 t2 a2 x2 t3 :
+  sok chk_once typed (t1 ++ EUser T_READY (n :: a1) x1 :: t2 ++ EUser T_READY (n :: a2) x2 :: t3) = true -> False.
+Proof.
+  intros H. unfold sok in H.
+  destruct (srun_mon chk_once (sworld0 typed) (t1 ++ EUser T_READY (n :: a1) x1 :: t2 ++ EUser T_READY (n :: a2) x2 :: t3) 0) eqn:E; [discriminate H|].
+  change (t1 ++ EUser T_READY (n :: a1) x1 :: t2 ++ EUser T_READY (n :: a2) x2 :: t3)
+    with (t1 ++ (EUser T_READY (n :: a1) x1 :: t2) ++ EUser T_READY (n :: a2) x2 :: t3) in E.
+  rewrite app_assoc in E. apply srun_mon_head in E. rewrite fold_left_app in E. cbn [fold_left] in E.
+  set (w1 := fold_left sworld_step t1 (sworld0 typed)) in *.
+  assert (M : mem n (sw_received (sworld_step w1 (EUser T_READY (n :: a1) x1))) = true).
+  { change (sw_received (sworld_step w1 (EUser T_READY (n :: a1) x1))) with (m_recv (absw (sworld_step w1 (EUser T_READY (n :: a1) x1)))).
+    rewrite abs_step. cbn. match goal with |- context [if ?c then _ else _] => destruct c end;
+      [destruct (alookup n (sw_req w1)) as [[scr ar]|]|]; cbn; rewrite Nat.eqb_refl; reflexivity. }
+  pose proof (recv_mono_fold t2 _ _ M) as M2.
+  unfold chk_once in E. cbn [T_READY Nat.eqb nth0 nth] in E. rewrite M2 in E. discriminate E.
 Qed.
 
 (* ---- what acceptance means, clause by clause *)
